@@ -192,7 +192,13 @@ def check_first(sess):
                 continue
             res = sm.field(q, obj, 'port_name') if is_method else out.val
             if 'comports-typeerror' in q.trail:
-                oblige_at(ex, q, tag, 'ensures', isinstance(res, VNone), 'enumeration-failure=>None')
+                if stale:
+                    # the property speaks about lists of enumerated ports; when the enumeration itself fails there is no list and the
+                    # statement is silent.  The real find_first returns early and leaves port_name as it was: demanding None here was
+                    # stricter than the property (false alarm on the unchanged tree, corrected; DESIGN C19).  Kept: nothing is invented.
+                    oblige_at(ex, q, tag, 'ensures', isinstance(res, VNone) or res is extra['port_name'], 'enumeration-failure=>None-or-the-name-left-unchanged')
+                else:
+                    oblige_at(ex, q, tag, 'ensures', isinstance(res, VNone), 'enumeration-failure=>None')
                 continue
             b1, b2 = q.ghost.get('break_byname'), q.ghost.get('break_byid')
             if isinstance(res, VNone):
